@@ -29,6 +29,30 @@ def check_unmutated(ctx, where, args, snap, index=1):
     return before
 
 
+class ResultKeeper:
+    """Remembers the last few arrays a hooked function returned (each with a copy taken at return) and notices when a later
+    call changes one of them: results that share a buffer, per instance or per module.  Only for workloads that do not write
+    into results themselves (not attached to foreign workloads); results that share memory with an argument are not kept."""
+
+    def __init__(self, ctx, keep=6):
+        import collections
+
+        self.ctx, self.held = ctx, collections.deque(maxlen=keep)
+
+    def after_call(self, label, result, args=()):
+        import numpy as np
+
+        for arr, copy, made_by in list(self.held):
+            same = arr.shape == copy.shape and bool(np.all((arr == copy) | ((arr != arr) & (copy != copy))))
+            if not same:
+                self.ctx.violation(f"{made_by}: an array returned by an earlier call is changed by a later call (results share a buffer)", {"later_call": label, "returned": copy, "now": arr}, copy, arr)
+                self.held.remove((arr, copy, made_by))
+        if isinstance(result, np.ndarray) and result.ndim > 0 and result.size > 0:
+            if not any(isinstance(a, np.ndarray) and np.shares_memory(result, a) for a in args):
+                self.held.append((result, result.copy(), label))
+                self.ctx.hit("law:results of earlier calls left alone")
+
+
 _REMOVE = object()
 
 
